@@ -11,7 +11,8 @@ EXHAUSTIVE_CLAIM = True
 RULE = ('The C12 matrix under the fork backend, but the worker process KILLS ITSELF at each enumerated point: every storage event of '
         'the save (before/after each open, before / in the middle of / after each write, flush, close) with SIGKILL and with SIGTERM '
         '(what ProcessExecutor.stop() sends), each with Python-level buffers lost or flushed first, and every line event of the '
-        'save path (tracer armed inside run(), so only the child is traced). Per combination all points are enumerated from a '
+        'save path (tracer armed inside run(), so only the child is traced); plus SIGTERM at every storage event (thorough: and line event) when the host '
+        'program has installed its own exit-cleanly SIGTERM handler before the run (forked workers inherit it). Per combination all points are enumerated from a '
         'fault-free dry run; Hypothesis adds generated result shapes with drawn kill points. After the kill the on-disk entry is '
         'classified independently of labtech (absent / complete old|new / metadata in {absent, partial, complete} x data in {absent, '
         'partial, old, new, mixed}, by byte comparison with reference entries), then a fresh Lab is asked: oracle = not is_cached and not listed, or '
@@ -52,6 +53,16 @@ def enumerate_cases(tier: str) -> list[dict]:
         for k in range(lines):
             for action in (('kill9', 'kill15') if not q else ('kill9',)):
                 cases.append({**c, 'inject': {'kind': 'line', 'at': k, 'action': action}, 'total': lines})
+        # the host program installed its own SIGTERM handler before the run (forked workers inherit it): terminate at every storage
+        # event, in the thorough tier also at every line event
+        if c['storage'] == 'local':
+            for j in range(events):
+                if q and j % 3 != 0 and j < events - 6:
+                    continue
+                cases.append({**c, 'host_sigterm': True, 'inject': {'kind': 'storage', 'at': j, 'action': 'kill15', 'flavour': 'lost'}, 'total': events})
+            if not q:
+                for k in range(lines):
+                    cases.append({**c, 'host_sigterm': True, 'inject': {'kind': 'line', 'at': k, 'action': 'kill15'}, 'total': lines})
     return cases
 
 
@@ -62,7 +73,7 @@ def check(case: dict) -> core.CaseResult:
         out.reached and bool(case.get('overwrite')) and case['inject'].get('at', 0) > 0)
     labels = [f'inject={case["inject"]["kind"]}', f'signal={case["inject"].get("action")}', f'buffers={case["inject"].get("flavour", "n/a")}',
               f'type={case["type"]}', f'{"overwrite" if case.get("overwrite") else "first-save"}', f'storage={case["storage"]}',
-              f'shape={case.get("shape_name", "generated")}', f'disk={disk_class}', f'post={"cached" if out.is_cached is True else "not-cached"}:{out.load}',
+              f'shape={case.get("shape_name", "generated")}', f'host_sigterm_handler={bool(case.get("host_sigterm"))}', f'disk={disk_class}', f'post={"cached" if out.is_cached is True else "not-cached"}:{out.load}',
               'reached' if out.reached else 'not-reached']
     s = out.summary()
     s['disk_class'] = disk_class
